@@ -195,9 +195,18 @@ pub fn invariants(r: &ScalableRecipe, valid: bool, seen: &mut Seen) -> Vec<(Stri
 pub fn check_case(ctx: &mut Ctx, ps: &mut Parsers, case: &Case) {
     ctx.begin(case);
     let parser = ps.parser(case.ext, &case.conv).clone();
-    let Ok(r) = crate::core::guarded(|| parser.parse(&case.input)) else {
-        ctx.count("panic_in_parse(C03)");
-        return;
+    let r = match crate::core::guarded(|| parser.parse(&case.input)) {
+        Ok(r) => r,
+        Err(p) => {
+            // the analysis asserts its own reference bookkeeping (indices in range, relations matching modifiers): an
+            // assertion that fires there is this property failing inside the library, not only a crash
+            if p.repo_file.contains("analysis") || p.repo_file.contains("model") {
+                ctx.violation(case, "invariant", &format!("reference_bookkeeping_assertion|{}", crate::core::strip_digits(&p.message).chars().take(50).collect::<String>()), format!("{} at {}", p.message, p.location));
+            } else {
+                ctx.count("panic_in_parse(C03)");
+            }
+            return;
+        }
     };
     let valid = r.is_valid();
     let Some(recipe) = r.output() else {
@@ -231,7 +240,7 @@ pub const FRAGMENTS: &[&str] = &[
     "@&(=~1)d{}", "@&(~2)d{}", "@+a{}", "@-a", "@?a", "@&c{}", "~t{1%min}", "~{}", "~n", "text", "\\", "\n\n", "\n", "= s\n", "=\n",
     "> p\n\n", ">> [mode]: components\n", ">> [mode]: steps\n", ">> [mode]: text\n", ">> [mode]: all\n", ">> [duplicate]: ref\n",
     ">> [duplicate]: new\n", "@&+a{}", "@&a{}(n)", "@ß{} @&SS{}", "180 C ", "#p|q{}", "#&q", "@a|z{}", "@&z{}", "@./x/a{}", "@&./x/a{1}", "~ {}", "~[- c -]{}",
-    "@a{}[- c -]@b{}", "@&(=~1)d{} ", ">\n\n", "> \n\n", "#a", "#&a", "@p{}", "@&p", ">> [mode]: text\nintro\n\n>> [mode]: all\n", "@&(~0)d{}", "@&(=~0)d{}",
+    "@a{}[- c -]@b{}", "@&(=~1)d{} ", ">\n\n", "> \n\n", "#a", "#&a", "@p{}", "@&p", ">> [mode]: text\nintro\n\n>> [mode]: all\n", "@&(~0)d{}", "@&(=~0)d{}", "@&(40000)d{}", "@&(=~65535)d{}",
 ];
 
 pub fn run(ctx: &mut Ctx) {
